@@ -70,6 +70,23 @@ def checkLatch (fou : Bool) (plan : List Group) (o : RunObs) : Option String :=
         else later rest (fails g)
     later plan false
 
+def isPrimaryFailure (fou : Bool) : Status → Bool
+  | .error (some _) => true
+  | .notExecutable => true
+  | .undefined => fou
+  | _ => false
+
+/-- an `error` entry without an exit code (the task was torn down before its process was waited
+for) needs a cause in its own group: a process that exited non-zero, a file without execute
+permission, or (with `--fail-on-undefined`) an undefined command. Otherwise the run reports a
+failure although none of the failures C06 lists occurred. -/
+def checkCause (fou : Bool) (plan : List Group) (o : RunObs) : Option String :=
+  let st (t : Task) : Option Status := statusFor o.results t.id
+  if plan.any (fun g => g.any (fun t => st t == some (.error none)) &&
+      !g.any (fun t => match st t with | some s => isPrimaryFailure fou s | none => false)) then
+    some "a task was torn down (error without exit code) although nothing in its group failed"
+  else none
+
 /-- dependency / command order: everything started in a later group starts after everything started
 in an earlier group has ended -/
 def checkOrder (plan : List Group) (o : RunObs) : Option String :=
@@ -93,6 +110,8 @@ def execOracle (fou : Bool) (plan : List Group) (o : RunObs) : Option String :=
     | some w => some w
     | none => match checkLatch fou plan o with
       | some w => some w
-      | none => checkOrder plan o
+      | none => match checkCause fou plan o with
+        | some w => some w
+        | none => checkOrder plan o
 
 end Monorail
